@@ -26,6 +26,11 @@ import (
 
 var fset = token.NewFileSet()
 
+// wide (INSTR_WIDE=1): every function of the crossover and mutation files gets yield points as well. They work on
+// genomes a task owns, but read parents that another task may read or (after a faulty change) write at the same time.
+var wide = os.Getenv("INSTR_WIDE") == "1"
+var wideFiles = map[string]bool{"genome_reproduce.go": true, "genome_mutate.go": true}
+
 func src(n ast.Node) string {
 	var b bytes.Buffer
 	_ = format.Node(&b, fset, n)
@@ -66,6 +71,24 @@ func collectGlobals(files []*ast.File) {
 			}
 		}
 	}
+}
+
+// takesSharedObjects: the function is handed the population or the species list, the objects every reproduction
+// goroutine of an epoch shares. The library's own incidental synchronisation (every call of the global math/rand
+// source takes one lock) orders almost any two accesses of two tasks that are released one at a time; only a switch
+// between an access and the task's next such call leaves them unordered for the race detector, so these functions get
+// yield points between all their statements.
+func takesSharedObjects(fd *ast.FuncDecl) bool {
+	if fd.Type.Params == nil {
+		return false
+	}
+	for _, f := range fd.Type.Params.List {
+		switch src(f.Type) {
+		case "*Population", "[]*Species":
+			return true
+		}
+	}
+	return false
 }
 
 func touchesSharedState(body *ast.BlockStmt) bool {
@@ -329,7 +352,7 @@ func main() {
 			if !ok || fd.Body == nil {
 				continue
 			}
-			if touchesSharedState(fd.Body) {
+			if touchesSharedState(fd.Body) || takesSharedObjects(fd) || (wide && wideFiles[base]) {
 				st := &fnState{started: true, file: base}
 				st.parent, st.chans = parentInfo(fd.Body)
 				fd.Body.List = st.list(fd.Body.List)
